@@ -91,8 +91,8 @@ const (
 	zeroMap = "" +
 		".........rs..r.................." + // 0x00
 		"r........p..r.tc................" + // 0x20
-		"...........................k.m.." + // 0x40
-		"...........................l.n.." + // 0x60
+		".....w.....................k.m.." + // 0x40
+		".....w.....................l.n.." + // 0x60
 		"................................" + // 0x80
 		"................................" + // 0xa0
 		"................................" + // 0xc0
